@@ -124,7 +124,9 @@ def sweep(algs, tier, seed, report, kinds, budget=None):
     for alg in algs:
         cases = []
         scope = gen.prop_scope(alg)
-        if per_alg is None:
+        bst = nv.boost("alg:" + alg) if tier == "quick" else 1
+        report.count("boost", alg, bst)
+        if per_alg is None or (bst > 1 and budget is None):
             cases = list(scope)
             exhaustive = True
         else:
@@ -132,10 +134,10 @@ def sweep(algs, tier, seed, report, kinds, budget=None):
             exhaustive = len(allc) <= per_alg
             cases = allc if exhaustive else rng.sample(allc, per_alg)
         n_scope = len(cases)
-        for _ in range(n_random):
+        for _ in range(n_random * bst):
             cases.append(gen.prop_random(alg, rng))
         n_wide = 0
-        for _ in range(n_random // 3):
+        for _ in range((n_random // 3) * bst):
             w = gen.prop_wide(alg, rng)
             if w is not None:
                 cases.append(w)
